@@ -1,5 +1,6 @@
 import ZoektModel.Basic.Proto
 import ZoektModel.C09.Spec
+import ZoektModel.C09.CheckerState
 namespace ZoektModel.C09
 open ZoektModel ZoektModel.Proto
 
@@ -135,6 +136,19 @@ def handle (line : String) : String :=
   | ["check", c, mx, al] => match hexToBytes? c, mx.toNat?, bool? al with
     | some b, some m, some a => answer (toString (docCheck b m a))
     | _, _, _ => badCase "check"
+  | ["checkseq", calls] =>
+    -- one DocChecker, several calls `contentHex:max:allow` separated by `,`. Model: the checker with its surviving trigram
+    -- set (`checkSeq`). Statement on the implementation: call by call the verdict of a fresh checker (`docCheck`).
+    let cs? := (calls.splitOn ",").mapM fun e =>
+      match e.splitOn ":" with
+      | [c, m, a] => do pure (← hexToBytes? c, ← m.toNat?, ← bool? a)
+      | _ => none
+    match cs? with
+    | some cs =>
+      let model := showNatList (checkSeq [] cs)
+      if impl == showNatList (cs.map fun d => docCheck d.1 d.2.1 d.2.2) then answer model
+      else specFail model "checker-state-leak"
+    | none => badCase "checkseq"
   | ["bskip", sm, tm, al, gv, c] => match sm.toNat?, tm.toNat?, bool? al, gv.toNat?, hexToBytes? c with
     | some s, some t, some a, some g, some b => answer (toString (builderSkip s t a g b))
     | _, _, _, _, _ => badCase "bskip"
